@@ -35,7 +35,8 @@ harness generated them). A body's output is a function of its fingerprint only t
 fingerprints of the same code (e.g. shifted constant-pool indices) produce the same files. -/
 def drvParams (codes : List (Env × Nat)) : Params where
   sum := id
-  out := fun l e obs g => mix ([l, (codes.lookup e).getD e, g] ++ obs.flatMap fun o => o.1 :: o.2.flatMap fun pv => [pv.1, mixVal pv.2])
+  -- the harness bodies hash the paths they read and their contents, not the label a path was declared through
+  out := fun l e obs g => mix ([l, (codes.lookup e).getD e, g] ++ obs.flatMap fun o => o.2.flatMap fun pv => [pv.1, mixVal pv.2])
 
 structure DSt where
   defs : List (Label × Def) := []
